@@ -192,9 +192,9 @@ SECT_DT_WRAP = "vz.harness.dt.wrap"
 SECT_DT_REJECT = "vz.harness.dt.reject_lk_x"
 
 
-def type_env(nimpl=2, l1_required=False, l1_datatype=None, keytype=None):
+def type_env(nimpl=2, l1_required=False, l1_datatype=None, keytype=None, lk_handler=None):
     """The fixed type environment E of every family member."""
-    l1_items = [Key("lk", default="d")]
+    l1_items = [Key("lk", default="d", handler=lk_handler)]
     if l1_required:
         l1_items.append(Key("rk", required=True))
     impl = ["i1", "i2", "i3"][:nimpl]
@@ -266,18 +266,22 @@ def selections(K, full=False):
     return out
 
 
-def place(items, placement, env, keytype=None, cut_datatype=None):
+def place(items, placement, env, keytype=None, cut_datatype=None, schema_handler=None, cuts_handler=None,
+          mids_handler=None):
     """Build the schema whose container-under-test holds `items`.
     placement 0: the schema itself; 1: section type 'cut' reachable through a
     '*' multisection at top; 2: 'cut' inside 'mid' inside the schema."""
     if placement == 0:
-        return Schema(types=env, items=items, keytype=keytype), []
+        return Schema(types=env, items=items, keytype=keytype, handler=schema_handler), []
     cut = SType("cut", items, keytype=keytype, datatype=cut_datatype)
     if placement == 1:
-        s = Schema(types=env + (cut,), items=(Sect("*", "cut", attribute="cuts", multi=True),))
+        s = Schema(types=env + (cut,), items=(Sect("*", "cut", attribute="cuts", multi=True, handler=cuts_handler),),
+                   handler=schema_handler)
         return s, [("o", "cut", None)]
-    mid = SType("mid", (Sect("*", "cut", attribute="cuts", multi=True), Key("mk", default="md")))
-    s = Schema(types=env + (cut, mid), items=(Sect("*", "mid", attribute="mids", multi=True),))
+    mid = SType("mid", (Sect("*", "cut", attribute="cuts", multi=True, handler=cuts_handler),
+                        Key("mk", default="md")))
+    s = Schema(types=env + (cut, mid), items=(Sect("*", "mid", attribute="mids", multi=True, handler=mids_handler),),
+               handler=schema_handler)
     return s, [("o", "mid", None), ("o", "cut", None)]
 
 
@@ -358,3 +362,70 @@ def vocabulary(s, tname, can_close, rich=True):
     if can_close:
         evs.append(("c",))
     return evs
+
+
+def items_from_labels(labels, extra_menus=()):
+    """Rebuild the items of a selection from its labels (used by replays)."""
+    reg = dict(item_menu(full=True))
+    for m in extra_menus:
+        reg.update(dict(m))
+    return tuple(reg[l](pos + 1) for pos, l in enumerate(labels))
+
+
+def lean_vocabulary(s, tname, can_close):
+    """Mostly-conforming events (used to grow seed texts for the dependent checks)."""
+    items = eff_items(s, tname)
+    evs = []
+    for it in items:
+        if isinstance(it, (Key, MultiKey)):
+            if it.name == "+":
+                evs.append(("k", "zz", VALUE_TOKENS[it.datatype][0]))
+                evs.append(("k", "Da", VALUE_TOKENS[it.datatype][0]))
+            else:
+                toks = VALUE_TOKENS[it.datatype]
+                evs.append(("k", it.name, toks[0]))
+                if it.datatype != "string":
+                    evs.append(("k", it.name, toks[-1]))
+        else:
+            if is_abstract(s, it.type):
+                ts = implementers(s, it.type)[:2]
+            else:
+                ts = [it.type]
+            if it.name == "*":
+                names = [None, "n1"] if not it.multi else [None, "n1", "n2"]
+            elif it.name == "+":
+                names = ["n1", "n2"] if it.multi else ["n1"]
+            else:
+                names = [it.name]
+            for t in ts:
+                for n in names:
+                    evs.append(("e", t, n))
+                    evs.append(("o", t, n))
+    evs.append(("k", "zz", "v"))
+    if can_close:
+        evs.append(("c",))
+    out = []
+    for e in evs:
+        if e not in out:
+            out.append(e)
+    return out
+
+
+def rich_schemas():
+    """A few larger schemas (several item kinds at once, three nesting levels)."""
+    env = type_env(nimpl=2, l1_required=False)
+    inner = SType("inner", (Key("k1", "integer", default="7"), MultiKey("m1"),
+                            Sect("n1", "l1"), Sect("*", "a", attribute="impls", multi=True)))
+    outer = SType("outer", (Key("k1"), Sect("+", "inner", attribute="inners", multi=True),
+                            Sect("*", "l1", attribute="leaf"), MultiKey("+", attribute="extra")))
+    r1 = Schema(types=env + (inner, outer),
+                items=(Key("k1", "integer", default="7"), MultiKey("m1", defaults=("dv", "dw")),
+                       Sect("*", "outer", attribute="outers", multi=True),
+                       Sect("n1", "inner"), Key("k2", required=True)))
+    env2 = type_env(nimpl=3, l1_required=True, l1_datatype=SECT_DT_REJECT)
+    box = SType("box", (Key("+", attribute="opts", default=(("Da", "x"),)), Sect("+", "l1", attribute="leaves", multi=True),
+                        Sect("*", "a", attribute="impl", required=True)))
+    r2 = Schema(types=env2 + (box,),
+                items=(Sect("*", "box", attribute="boxes", multi=True), MultiKey("m1", "integer", required=True),
+                       Sect("*", "l2", attribute="two")))
+    return [("rich1", r1, []), ("rich2", r2, [])]
